@@ -24,19 +24,21 @@
         is): fuel B(n) = n^2 (4n+5) + 4n + 4 suffices, i.e. the recursion depth is at most B(n).
         The two hypotheses are necessary: witnesses exceed the bound without them (F55 as found;
         an id cycle through the tuple table).
-     2. contains_cycle (narrowing.rs:277-295): depth <= n + 1.  union_type_ids: not recursive.
-        NOT PROVED: intersect_types / compute_complement / subtract_one.  Missing: an invariant
-        that the ids RETURNED by the narrowing functions (newly registered tuple types whose fields
-        are themselves results) stay topologically ordered and no deeper than their operands —
-        compute_complement feeds its own results back into subtract_one, so descent on the id of
-        the operands does not cover them.  Their recursion depth is measured on every run
-        (candidate bound 2n+2, evidence keys model_layer.narrow_...), not proved.
+     2. narrowing (narrowing.rs:277-479): contains_cycle: depth <= n + 1.  intersect_types / intersect_pair:
+        FULL - fuel 2n+2 (and relation fuel B(n)) suffices on every registry with topologically ordered
+        ids and in-range tuple ids; the registry grows but the recursion descends base ids only.
+        compute_complement / subtract_one: recursion depth <= 2n+2, stated as irrelevance of the
+        structural fuel beyond the bound (results are fed back as operands; the measure is the id of
+        the NARROWED side, which never is a result).  union_type_ids: not recursive.
+        NOT PROVED: sufficiency of a relation fuel given in n alone for the relation checks made
+        inside compute_complement (they see ids registered during the run).
      3. string post-processing with the located error (parser.rs:685-754): total; the error span
         lies inside the segment and starts at the offending backslash (a character boundary).
         normalize_blocks and print: total (print re-exported from C17 with attribution). *)
-From Quiver Require Import Base Types Rel Narrow RelProofs.
+From Quiver Require Import Base Types Rel Narrow RelProofs TypesProofs.
 From Quiver Require Import Ast Simplify Escape Pretty PrettyProofs.
 From Quiver.front Require Import Totality RelTermProofs RelTermWitness NarrowTermProofs StringLoc StringLocProofs.
+From Quiver.front Require Import IntersectTermProofs ComplementTermProofs NarrowBoundProofs.
 From Coq Require Import Arith.
 
 (* ---- 1. check_type_relation --------------------------------------------------------------- *)
@@ -64,14 +66,27 @@ Print Assumptions C18_check_rel_terminates_gen.
 
 (* the general form: from ANY reachable state (assumption set A, both stacks holding ids of unions /
    callables), with U in-range pairs not yet assumed, at a pair of weight <= m *)
+(* ... and WINDOWED: only the ids below K need to be topologically ordered, the bound is in K (K = ntypes P
+   is the plain statement; narrowing runs the relation on base ids inside a registry that has grown) *)
 Theorem C18_check_rel_fuel_enough : forall (cfg : rel_cfg) (P : registry) (mode : union_mode),
-  cfg_callable_assume cfg = true -> topo P ->
+  cfg_callable_assume cfg = true ->
+  forall K : nat,
+  (forall id t, (id < K)%nat -> lookup_type P id = Some t -> forall c, In c (children P t) -> (c < id)%nat) ->
   forall (U m f : nat) (A : assumptions) (ss ps : list nat) (s p : nat),
-  (unassumed (ntypes P) A <= U)%nat -> stack_ok P ss -> stack_ok P ps ->
-  (s < ntypes P)%nat -> (p < ntypes P)%nat -> (w P s p <= m)%nat -> (rel_need (ntypes P) U m <= f)%nat ->
+  (unassumed K A <= U)%nat -> stack_ok P K ss -> stack_ok P K ps ->
+  (s < K)%nat -> (p < K)%nat -> (w P s p <= m)%nat -> (rel_need K U m <= f)%nat ->
   exists r A', check_rel cfg P mode f A ss ps s p = Some (r, A') /\ ext A' A.
 Proof. exact check_rel_fuel_enough. Qed.
 Print Assumptions C18_check_rel_fuel_enough.
+
+Theorem C18_check_rel_terminates_window : forall (cfg : rel_cfg) (P : registry) (mode : union_mode),
+  cfg_callable_assume cfg = true ->
+  forall K : nat,
+  (forall id t, (id < K)%nat -> lookup_type P id = Some t -> forall c, In c (children P t) -> (c < id)%nat) ->
+  forall fuel a b, (a < K)%nat -> (b < K)%nat -> (rel_bound K <= fuel)%nat ->
+  exists r A', check_rel cfg P mode fuel [] [] [] a b = Some (r, A').
+Proof. exact check_rel_terminates_window. Qed.
+Print Assumptions C18_check_rel_terminates_window.
 
 Theorem C18_is_compatible_terminates : forall (P : registry) (fuel a b : nat),
   topob P = true -> (rel_bound (ntypes P) <= fuel)%nat ->
@@ -140,11 +155,85 @@ Theorem C18_union_type_ids_total : forall (P : registry) (ids : list nat),
 Proof. exact union_type_ids_total. Qed.
 Print Assumptions C18_union_type_ids_total.
 
-(* narrow_terminates, the statement that is NOT proved (kept in full):
-     forall P fuel rel_fuel a b, topob P = true -> tuple ids in range ->
-       narrow_bound (ntypes P) <= fuel -> (rel_fuel suffices for every registry met on the way) ->
-       intersect_types current_cfg rel_fuel fuel P a b <> None /\
-       compute_complement current_cfg rel_fuel fuel P a b <> None *)
+(* intersect_types (narrowing.rs:303-372, incl. the exact-meet arms for callable / process types): FULL.
+   For every registry with topologically ordered ids and in-range tuple ids (`closed_tuplesb`: what
+   register_tuple / register_type produce) with n types, every pair of ids, every model variant that
+   records the callable assumption: structural fuel narrow_bound n = 2n+2 and relation fuel rel_bound n
+   suffice; the result extends the registry.  The registry grows during the run, but the recursion only
+   descends into ids of the registry it started from (measure: the id of the self side), and the
+   relation checks are made on such ids (windowed check_rel / contains_cycle bounds). *)
+Theorem C18_intersect_types_terminates : forall (cfg : rel_cfg) (P : registry) (rel_fuel fuel a b : nat),
+  cfg_callable_assume cfg = true -> topob P = true -> closed_tuplesb P = true ->
+  (rel_bound (ntypes P) <= rel_fuel)%nat -> (narrow_bound (ntypes P) <= fuel)%nat ->
+  exists P' r, intersect_types cfg rel_fuel fuel P a b = Some (P', r) /\ extends P P'.
+Proof. exact intersect_types_terminates. Qed.
+Print Assumptions C18_intersect_types_terminates.
+
+(* the general form: relative to a base registry P0, from ANY registry P that extends it (any state
+   reached during a run), for operands that are base ids, given that the relation checks on base ids
+   answer in every extension (`rel_answers_on`, discharged above from rel_fuel >= rel_bound n) *)
+Theorem C18_intersect_fuel_enough : forall (cfg : rel_cfg) (rel_fuel : nat) (P0 : registry),
+  topo P0 -> closed_tuples P0 -> rel_answers_on cfg rel_fuel P0 ->
+  forall m : nat,
+  (forall fuel P a b, extends P0 P -> (a < ntypes P0)%nat -> (b < ntypes P0)%nat -> (a <= m)%nat -> (2 * m + 2 <= fuel)%nat ->
+     exists P' x, intersect_types cfg rel_fuel fuel P a b = Some (P', x) /\ extends P P') /\
+  (forall fuel P a b, extends P0 P -> (a < ntypes P0)%nat -> (b < ntypes P0)%nat -> (a <= m)%nat -> (2 * m + 1 <= fuel)%nat ->
+     exists P' x, intersect_pair cfg rel_fuel fuel P a b = Some (P', x) /\ extends P P').
+Proof. exact intersect_fuel_enough. Qed.
+Print Assumptions C18_intersect_fuel_enough.
+
+(* compute_complement / subtract_one (narrowing.rs:403-479): the recursion depth is at most 2n+2.
+   compute_complement feeds its results back into subtract_one, so the self side of a call may be an
+   id registered during the run; the NARROWED side never is (always a variant, or a field type of a
+   variant, of the narrowed operand) and strictly decreases - that is the measure.  The relation checks
+   of subtract_one's shortcuts run on (piece, narrowed variant) where the piece may be new, so whether
+   THEY answer depends on the relation fuel and on how far the registry has grown; the theorem is
+   therefore about the structural fuel: beyond narrow_bound n it is irrelevant, for every relation
+   fuel - if any structural fuel >= the bound yields an answer, the bound itself yields the same one,
+   and a None at the bound can only come from the relation fuel. *)
+Theorem C18_complement_fuel_irrelevant : forall (cfg : rel_cfg) (rel_fuel : nat) (P : registry) (fuel fuel' o nr : nat),
+  topob P = true -> closed_tuplesb P = true ->
+  (narrow_bound (ntypes P) <= fuel)%nat -> (narrow_bound (ntypes P) <= fuel')%nat ->
+  compute_complement cfg rel_fuel fuel P o nr = compute_complement cfg rel_fuel fuel' P o nr.
+Proof. exact complement_fuel_irrelevant. Qed.
+Print Assumptions C18_complement_fuel_irrelevant.
+
+Theorem C18_complement_bound_suffices : forall (cfg : rel_cfg) (rel_fuel : nat) (P : registry) (fuel o nr : nat) r,
+  topob P = true -> closed_tuplesb P = true -> (narrow_bound (ntypes P) <= fuel)%nat ->
+  compute_complement cfg rel_fuel fuel P o nr = Some r ->
+  compute_complement cfg rel_fuel (narrow_bound (ntypes P)) P o nr = Some r.
+Proof. exact complement_bound_suffices. Qed.
+Print Assumptions C18_complement_bound_suffices.
+
+(* general form: relative to a base registry, from any extension, for every self side (base id or not) *)
+Theorem C18_complement_fuel_stable : forall (cfg : rel_cfg) (rel_fuel : nat) (P0 : registry),
+  topo P0 -> closed_tuples P0 -> forall m : nat,
+  (forall f f' P o nr, extends P0 P -> (nr < ntypes P0)%nat -> (nr <= m)%nat -> (2 * m + 2 <= f)%nat -> (2 * m + 2 <= f')%nat ->
+     compute_complement cfg rel_fuel f P o nr = compute_complement cfg rel_fuel f' P o nr) /\
+  (forall f f' P a b, extends P0 P -> (b < ntypes P0)%nat -> (b <= m)%nat -> (2 * m + 1 <= f)%nat -> (2 * m + 1 <= f')%nat ->
+     subtract_one cfg rel_fuel f P a b = subtract_one cfg rel_fuel f' P a b).
+Proof. exact complement_fuel_stable. Qed.
+Print Assumptions C18_complement_fuel_stable.
+
+(* non-vacuity of both: the recursive list registry and the F55 function types meet the hypotheses; the
+   meet and the complement are computed at the bounds, not with 3 units of structural fuel *)
+Example C18_narrow_nonvacuous :
+  topob reg_list = true /\ closed_tuplesb reg_list = true /\ narrow_bound (ntypes reg_list) = 18%nat /\
+  (exists P' r, intersect_types current_cfg (rel_bound (ntypes reg_list)) 18 reg_list 4 7 = Some (P', r) /\ r = 3%nat) /\
+  intersect_types current_cfg (rel_bound (ntypes reg_list)) 3 reg_list 4 7 = None /\
+  (exists P' r, compute_complement current_cfg (rel_bound (ntypes reg_list)) (narrow_bound (ntypes reg_list)) reg_list 4 7 = Some (P', r)) /\
+  compute_complement current_cfg (rel_bound (ntypes reg_list)) 3 reg_list 4 7 = None.
+Proof.
+  exact (conj (proj1 intersect_nonvacuous) (conj (proj1 (proj2 intersect_nonvacuous)) (conj (proj1 (proj2 (proj2 intersect_nonvacuous)))
+        (conj (proj1 (proj2 (proj2 (proj2 intersect_nonvacuous)))) (conj (proj1 (proj2 (proj2 (proj2 (proj2 intersect_nonvacuous)))))
+        (conj (proj1 complement_nonvacuous) (proj1 (proj2 complement_nonvacuous)))))))).
+Qed.
+
+(* NOT proved: that the relation checks made INSIDE compute_complement answer for a relation fuel given
+   as a function of the initial n alone (they run on ids registered during the run, in a registry whose
+   growth is not polynomially bounded: pieces multiply per field and per narrowed variant).  Measured on
+   every run instead: the model's minimal structural fuel against narrow_bound n, with a large relation
+   fuel (evidence keys model_layer.narrow_...). *)
 
 (* ---- 3. string post-processing, block normalisation, layout ------------------------------------ *)
 (* parse_string_content with its position bookkeeping: a result or a located error, the location
